@@ -2,3 +2,4 @@ SPECIFICATION TSpec
 CONSTRAINT JudgeP
 CONSTRAINT JudgeMC
 CONSTRAINT JudgeM
+CONSTRAINT JudgeU
